@@ -3,7 +3,7 @@
 
 fn rule_text(prop: &str) -> String {
     if prop == "C13" {
-        "C13: (a) HTTP/2 requests = valid pseudo-headers + 0..8 regular headers from a name/value pool (duplicates, obs-text, leading/trailing OWS, empty values) + with prob. 0.7 spoofing headers (X-Forwarded-For x0..2, Forwarded, X-Real-IP, X-Forwarded-Proto/Port, X-Request-Id x0..2, the listener's correlation header name in 3 case variants, Connection-nominated names), cookies incl. the sticky cookie, optional DATA + trailers (incl. the four spoof names); (b) the same header lists through an HTTP/1.1 frontend (real kawa parser) toward H1 and H2 backends; (c) responses with 0..6 headers incl. Connection / Set-Cookie / the correlation name; (d) per-frontend response edits (0..4 Append / SetIfAbsent / Set / empty-value delete over 8 names in 3 case variants) through the real apply_response_header_edits; (e) HSTS configuration histories on the real Router (add_http_front_with_hsts_origin driven like https.rs does: frontends with no / enabled / explicitly disabled hsts block, with or without other policy, in pre / tree / post position, clusterless ones; listener default absent / disabled / enabled at add time; 3..9 further adds, listener patches enable / change / disable, removals, re-adds; every live frontend looked up and its response edits applied to a backend response with 0..2 STS headers); contexts: peer v4/v6/none, public v4/v6, http/https, closing, elide/send X-Real-IP, 3 sticky names, 3 correlation header names. non-trivial = the request reached the editor; distinct = distinct op sequence".into()
+        "C13: (a) HTTP/2 requests = valid pseudo-headers + 0..8 regular headers from a name/value pool (duplicates, obs-text, leading/trailing OWS, empty values) + with prob. 0.7 spoofing headers (X-Forwarded-For x0..2, Forwarded, X-Real-IP, X-Forwarded-Proto/Port, X-Request-Id x0..2, the listener's correlation header name in 3 case variants, Connection-nominated names), cookies incl. the sticky cookie, optional DATA + trailers (incl. the four spoof names); (b) the same header lists through an HTTP/1.1 frontend (real kawa parser) toward H1 and H2 backends; (c) responses with 0..6 headers incl. Connection / Set-Cookie / the correlation name; (d) per-frontend response edits (0..4 Append / SetIfAbsent / Set / empty-value delete over 8 names in 3 case variants) through the real apply_response_header_edits; (e') response header blocks of an HTTP/2 backend through the response arm of handle_header (status forms, pseudo-header order / duplicate / unknown, connection-specific, content-length forms, END_STREAM with a length, body-exempt status codes, budgets); (e) HSTS configuration histories on the real Router (add_http_front_with_hsts_origin driven like https.rs does: frontends with no / enabled / explicitly disabled hsts block, with or without other policy, in pre / tree / post position, clusterless ones; listener default absent / disabled / enabled at add time; 3..9 further adds, listener patches enable / change / disable, removals, re-adds; every live frontend looked up and its response edits applied to a backend response with 0..2 STS headers); contexts: peer v4/v6/none, public v4/v6, http/https, closing, elide/send X-Real-IP, 3 sticky names, 3 correlation header names. non-trivial = the request reached the editor; distinct = distinct op sequence".into()
     } else {
         "C03: (a) HTTP/2 header lists: valid requests (4 methods + custom tokens, origin/asterisk paths, authority with/without port, 0..6 regular headers, cookies, Content-Length consistent with END_STREAM) and with prob. 0.6 one to three mutations out of 40 shapes (uppercase / non-token name bytes, CR LF NUL CTL DEL in values and cookie crumbs, pseudo-header order / duplicate / missing / unknown / empty / HTAB, method and scheme and path forms incl. SP and '#', connection-specific names, te values, Content-Length sign/space/empty/leading zero/duplicate equal/duplicate differing/overflow, literal host equal/port/mismatch/duplicate, END_STREAM with length, tiny field/byte budgets), followed by DATA frames and optional trailers; (b) HTTP/1.1 byte strings: 1..3 pipelined valid requests (CL / chunked with trailers / no body, origin / absolute / asterisk targets) and with prob. 0.65 a published smuggling shape (CL.TE, TE.CL, TE.TE obfuscations, duplicate CL, signed CL, bare LF, bare CR, obs-fold, NUL/CTL, space before colon, chunk-size tricks, no-length pipeline) or 1..3 random byte edits, cut at random segment boundaries; (c) cross-check of the harness's strict reader against the Lean one on the same strings. non-trivial = the real validator / parser ran; distinct = distinct op sequence".into()
     }
@@ -970,6 +970,61 @@ fn gen_hsts_case(rng: &mut Rng) -> Vec<String> {
     ops
 }
 
+/// a response header block of an HTTP/2 backend: valid ones and the shapes the response arm must refuse
+fn gen_h2resp_case(rng: &mut Rng, with_ctx: bool) -> Vec<String> {
+    let status = rng.pick(&["200", "204", "304", "100", "103", "404", "500", "301", "999"]).to_string();
+    let mut hs: Vec<Hdr> = vec![h(":status", &status)];
+    for _ in 0..rng.below(6) {
+        let k = rng.pick(&["server", "content-type", "set-cookie", "cache-control", "x-b", "via", "strict-transport-security", "vary"]).to_string();
+        hs.push((k.into_bytes(), gen_value(rng)));
+    }
+    let mut es = rng.chance(1, 2);
+    if rng.chance(1, 3) {
+        let n = if es && rng.chance(2, 3) { 0 } else { rng.below(9) };
+        let at = rng.range(1, hs.len() as u64) as usize;
+        hs.insert(at, h("content-length", n.to_string()));
+        if rng.chance(1, 6) {
+            hs.push(h("content-length", if rng.chance(1, 2) { n.to_string() } else { (n + 1).to_string() }));
+        }
+    }
+    let (mut ml, mut mf) = (65536u32, 200u32);
+    if rng.chance(1, 2) {
+        match rng.below(16) {
+            0 => hs[0].1 = rng.pick(&["20", "2000", "+20", " 20", "2 0", "abc", "", "00200"]).as_bytes().to_vec(),
+            1 => {
+                hs.remove(0);
+            }
+            2 => hs.push(h(":status", "200")),
+            3 => {
+                let st = hs.remove(0);
+                hs.push(st);
+            }
+            4 => hs.insert(0, h(rng.pick(&[":path", ":method", ":x", ":"]), "v")),
+            5 => {
+                let i = rng.below(hs.len() as u64) as usize;
+                let b = bad_byte(rng);
+                hs[i].1.push(b);
+            }
+            6 => hs.push(h(rng.pick(&["connection", "keep-alive", "transfer-encoding", "upgrade", "proxy-connection"]), "x")),
+            7 => hs.push(h("Server", "upper")),
+            8 => hs.push(h("content-length", rng.pick(&["+1", "", "1 ", "x"]))),
+            9 => {
+                hs.retain(|(k, _)| k != b"content-length");
+                hs.push(h("content-length", "5"));
+                es = true;
+            }
+            10 => mf = rng.range(1, 4) as u32,
+            11 => ml = rng.range(40, 200) as u32,
+            12 => hs[0].0 = b":STATUS".to_vec(),
+            13 => hs.push(h("te", rng.pick(&["trailers", "gzip"]))),
+            14 => hs.push((b"x y".to_vec(), b"v".to_vec())),
+            _ => hs.push(h("x-long", "v".repeat(rng.range(100, 2000) as usize))),
+        }
+    }
+    let cx = if with_ctx { gen_cx(rng).word() } else { "-".to_string() };
+    vec!["new".into(), format!("h2resp {ml} {mf} {} {cx} {}", es as u8, hl(&hs))]
+}
+
 fn gen_case(prop: &str, rng: &mut Rng, _thorough: bool) -> Vec<String> {
     let r = rng.below(100);
     if prop == "C13" {
@@ -988,8 +1043,10 @@ fn gen_case(prop: &str, rng: &mut Rng, _thorough: bool) -> Vec<String> {
             vec!["new".into(), op_h1(&b, &cuts)]
         } else if r < 91 {
             gen_resp_case(rng)
-        } else if r < 95 {
+        } else if r < 93 {
             gen_respedits_case(rng)
+        } else if r < 96 {
+            gen_h2resp_case(rng, true)
         } else {
             gen_hsts_case(rng)
         }
@@ -997,6 +1054,8 @@ fn gen_case(prop: &str, rng: &mut Rng, _thorough: bool) -> Vec<String> {
         // a third of the H2 cases go through the real editor too (what is forwarded includes its additions)
         let cx = if rng.chance(1, 3) { Some(gen_cx(rng)) } else { None };
         gen_h2_case(rng, cx.as_ref(), false)
+    } else if r < 54 {
+        gen_h2resp_case(rng, false)
     } else if r < 60 {
         let b = gen_h1_bytes(rng);
         vec!["new".into(), format!("strict {}", hex(&b))]
